@@ -1,5 +1,6 @@
 import RisorModel.Util
 import RisorModel.C01.Decode
+import RisorModel.C01.Compile
 /-! Line-protocol front end of the C01 model.
   `eval <sexp>` → `ok <value> <stdout-hex>` | `err <class> <stdout-hex>` | `oof` | `unsupported <what>` -/
 namespace Risor.C01
@@ -9,6 +10,22 @@ def handle : List String → String
     match decodeProg sx with
     | none => "error\tcannot decode the program"
     | some p => showOutcome (runProg 200000 p)
+  | ["compile", sx, globals] =>
+    match decodeProg sx with
+    | none => "error\tcannot decode the program"
+    | some p =>
+      match compileProg ((globals.splitOn ",").filter (· ≠ "")) p with
+      | .error e => "fail\t" ++ e
+      | .ok codes =>
+        let showConst : Const → String
+          | .int i => "i" ++ toString i
+          | .str s => "s" ++ Util.toHexField (Util.strBytes s)
+          | .fn id => "f" ++ id
+        let one (c : CodeB) : String :=
+          "id=" ++ c.id ++ ";ins=" ++ codeText c ++ ";consts=" ++ ",".intercalate (c.consts.toList.map showConst)
+            ++ ";names=" ++ ",".intercalate c.names.toList
+        let sorted := (codes.map one).toArray.qsort (fun a b => a < b) |>.toList
+        "ok\t" ++ "|".intercalate sorted
   | _ => "error\tunknown-request"
 
 end Risor.C01
